@@ -223,6 +223,7 @@ func c20Eval(t tb, c c20Case) {
 		d := ref.NewDI(it.m.C, it.m.Script.Env)
 		sharedSerial := map[string]int64{}
 		ctxSerial := map[string]map[string]int64{} // service -> ctx -> serial
+		fresh := map[string]map[int64]bool{}       // service -> serials returned by calls that must not share (non_shared; contextual without context)
 		ok := true
 		fail := func(key, what string) {
 			if ok {
@@ -237,6 +238,7 @@ func c20Eval(t tb, c c20Case) {
 				d = ref.NewDI(it.m.C, it.m.Script.Env)
 				sharedSerial = map[string]int64{}
 				ctxSerial = map[string]map[string]int64{}
+				fresh = map[string]map[int64]bool{}
 			case "par":
 				for g := range op.Par {
 					if g >= len(r.Par) || len(r.Par[g]) != len(op.Par[g]) {
@@ -247,10 +249,22 @@ func c20Eval(t tb, c c20Case) {
 						visit(op.Par[g][k], r.Par[g][k])
 					}
 				}
-			case "get", "param", "tagged":
-				exp := d.Exec(modelOp(op))
+			case "get", "param", "tagged", "getter", "must":
+				mop, svc := modelOp(op), op.ID
+				if op.Op == "getter" || op.Op == "must" {
+					// a generated accessor is Get / GetInContext on the service named in Tag
+					if r.Missing {
+						return
+					}
+					svc = op.Tag
+					mop = ref.ProbeOp{Op: "get", ID: svc, Ctx: op.Ctx}
+				}
+				exp := d.Exec(mop)
 				if exp.Skip {
 					return
+				}
+				if op.Op == "must" && exp.Err != "" {
+					exp = ref.Exp{Panic: true}
 				}
 				if err := structOnly(exp, r); err != nil {
 					fail("value:"+classifyMismatch(err.Error()), "concurrent result differs from the sequential model: "+err.Error())
@@ -259,26 +273,53 @@ func c20Eval(t tb, c c20Case) {
 				// package-level values (value: pkg.GlobalObj) are one Go object whatever the scope says:
 				// identity invariants only concern objects the container constructs
 				constructed := exp.V != nil && exp.V.O != nil && exp.V.O.ID != "" && !strings.HasPrefix(exp.V.O.ID, "global:")
-				if op.Op == "get" && constructed && r.V != nil && r.V.O != nil && r.V.O.Serial != 0 && r.Err == "" {
-					switch scopes[op.ID] {
+				if op.Op != "param" && op.Op != "tagged" && constructed && r.V != nil && r.V.O != nil && r.V.O.Serial != 0 && r.Err == "" {
+					serial := r.V.O.Serial
+					switch scopes[svc] {
 					case "shared":
-						if s, seen := sharedSerial[op.ID]; seen && s != r.V.O.Serial {
-							fail("shared-constructed-twice", fmt.Sprintf("shared service %q was observed as two instances (serials %d and %d)", op.ID, s, r.V.O.Serial))
+						if s, seen := sharedSerial[svc]; seen && s != serial {
+							fail("shared-constructed-twice", fmt.Sprintf("shared service %q was observed as two instances (serials %d and %d)", svc, s, serial))
 						}
-						sharedSerial[op.ID] = r.V.O.Serial
+						sharedSerial[svc] = serial
+					case "non_shared":
+						// afresh for every Get
+						if fresh[svc] == nil {
+							fresh[svc] = map[int64]bool{}
+						}
+						if fresh[svc][serial] {
+							fail("non-shared-returned-twice", fmt.Sprintf("non_shared service %q: instance %d was returned by two calls", svc, serial))
+						}
+						fresh[svc][serial] = true
 					case "contextual":
-						if op.Ctx != "" {
-							if ctxSerial[op.ID] == nil {
-								ctxSerial[op.ID] = map[string]int64{}
+						if ctxSerial[svc] == nil {
+							ctxSerial[svc] = map[string]int64{}
+						}
+						if op.Ctx == "" {
+							// a call without an attached context is a context of its own
+							if fresh[svc] == nil {
+								fresh[svc] = map[int64]bool{}
 							}
-							if s, seen := ctxSerial[op.ID][op.Ctx]; seen && s != r.V.O.Serial {
-								fail("contextual-twice-in-one-context", fmt.Sprintf("contextual service %q has two instances in context %s", op.ID, op.Ctx))
+							if fresh[svc][serial] {
+								fail("contextual-shared-between-call-trees", fmt.Sprintf("contextual service %q: instance %d was returned by two calls that have no context in common", svc, serial))
 							}
-							ctxSerial[op.ID][op.Ctx] = r.V.O.Serial
-							for other, s := range ctxSerial[op.ID] {
-								if other != op.Ctx && s == r.V.O.Serial {
-									fail("contextual-shared-between-contexts", fmt.Sprintf("contextual service %q: contexts %s and %s share instance %d", op.ID, other, op.Ctx, s))
+							for other, s := range ctxSerial[svc] {
+								if s == serial {
+									fail("contextual-shared-between-contexts", fmt.Sprintf("contextual service %q: context %s and a call without context share instance %d", svc, other, s))
 								}
+							}
+							fresh[svc][serial] = true
+						} else {
+							if s, seen := ctxSerial[svc][op.Ctx]; seen && s != serial {
+								fail("contextual-twice-in-one-context", fmt.Sprintf("contextual service %q has two instances in context %s", svc, op.Ctx))
+							}
+							ctxSerial[svc][op.Ctx] = serial
+							for other, s := range ctxSerial[svc] {
+								if other != op.Ctx && s == serial {
+									fail("contextual-shared-between-contexts", fmt.Sprintf("contextual service %q: contexts %s and %s share instance %d", svc, other, op.Ctx, s))
+								}
+							}
+							if fresh[svc][serial] {
+								fail("contextual-shared-between-contexts", fmt.Sprintf("contextual service %q: context %s and a call without context share instance %d", svc, op.Ctx, serial))
 							}
 						}
 					}
@@ -312,9 +353,13 @@ func c20Eval(t tb, c c20Case) {
 // released together, each running a drawn sequence of reads.
 func drawConcurrentScript(rt *rapid.T, c cfg.Config) fx.Script {
 	var svcs, params, tags []string
+	var getters [][2]string
 	seen := map[string]bool{}
 	for _, s := range c.Services {
 		svcs = append(svcs, s.Name)
+		if s.Getter != nil && !s.IsTodo() && exportedName(*s.Getter) {
+			getters = append(getters, [2]string{*s.Getter, s.Name})
+		}
 		for _, t := range s.Tags {
 			if !seen[t.Name] {
 				seen[t.Name] = true
@@ -353,6 +398,13 @@ func drawConcurrentScript(rt *rapid.T, c cfg.Config) fx.Script {
 					ops = append(ops, fx.Op{Op: "param", ID: rapid.SampledFrom(params).Draw(rt, "param")})
 				case k == 4 && len(tags) > 0:
 					ops = append(ops, fx.Op{Op: "tagged", ID: rapid.SampledFrom(tags).Draw(rt, "tag"), Ctx: ctx})
+				case k == 5 && len(getters) > 0:
+					g := rapid.SampledFrom(getters).Draw(rt, "getter")
+					if rapid.Bool().Draw(rt, "must") {
+						ops = append(ops, fx.Op{Op: "must", ID: "Must" + g[0], Tag: g[1], Ctx: ctx})
+					} else {
+						ops = append(ops, fx.Op{Op: "getter", ID: g[0], Tag: g[1], Ctx: ctx})
+					}
 				default:
 					if len(svcs) > 0 {
 						ops = append(ops, fx.Op{Op: "get", ID: svcs[0], Ctx: ctx})
